@@ -4,6 +4,7 @@
 mod common;
 mod nc;
 mod rn;
+mod tp;
 
 use common::*;
 use std::collections::{BTreeMap, HashSet};
@@ -62,12 +63,14 @@ fn parse_args() -> Args {
 fn all_profiles() -> Vec<Profile> {
     let mut v = rn::profiles();
     v.extend(nc::profiles());
+    v.extend(tp::profiles());
     v
 }
 
 fn all_oracles() -> Vec<Oracle> {
     let mut v = rn::oracles();
     v.extend(nc::oracles());
+    v.extend(tp::oracles());
     v
 }
 
